@@ -112,6 +112,8 @@ pub struct Ctx {
     pub nshards: u64,
     pub only: Option<(String, u64)>,
     pub scale: f64,
+    /// added to the case index when cases are dealt to shards (spreads workloads of one or two heavy cases)
+    pub shard_offset: u64,
     tallies: BTreeMap<(String, String), Tally>,
     distinct: HashSet<u64>,
     samples: BTreeMap<(String, String), Vec<Value>>,
@@ -158,6 +160,7 @@ impl Ctx {
             nshards,
             only,
             scale,
+            shard_offset: 0,
             tallies: BTreeMap::new(),
             distinct: HashSet::new(),
             samples: BTreeMap::new(),
@@ -223,7 +226,7 @@ impl Ctx {
                 if s != scheme || *i != idx {
                     continue;
                 }
-            } else if idx % self.nshards != self.shard {
+            } else if (idx + self.shard_offset) % self.nshards != self.shard {
                 continue;
             }
             self.cur_scheme = scheme.to_string();
